@@ -135,9 +135,16 @@ func c06StartCapture() *c06Capture {
 		for sc.Scan() {
 			l := sc.Text()
 			c.mu.Lock()
-			if ch, ok := c.syncs[l]; ok {
-				close(ch)
-				delete(c.syncs, l)
+			// the marker is written on a line of its own; if the engine left a line unterminated the
+			// marker is glued to it: the unterminated text is kept (and fails the line-shape test)
+			if idx := strings.LastIndex(l, "@@sync "); idx >= 0 {
+				if idx > 0 {
+					c.lines = append(c.lines, l[:idx]+"<no line terminator>")
+				}
+				if ch, ok := c.syncs[l[idx:]]; ok {
+					close(ch)
+					delete(c.syncs, l[idx:])
+				}
 			} else {
 				c.lines = append(c.lines, l)
 			}
